@@ -205,6 +205,15 @@ func genC08Case(r *rand.Rand, idx int64) *c08Case {
 	add(tupID(s.ns, a1, s.rel, a4), "adv-other")
 	add(tupSet(s.ns, a3, s.rel, s.ns, a4, s.rel), "adv-other")
 
+	// --- look-alikes: two DIFFERENT relationships whose printed forms coincide
+	// (a subject id whose text is the printed form of a subject set); one is
+	// stored, the other is not
+	lkSet := tupSet(s.ns, "lk", s.rel, s.ns, "lkgroup", s.rel)
+	lkID := tupID(s.ns, "lk", s.rel, lkSet.SubjectSet.String())
+	c.tuples = append(c.tuples, lkSet)
+	lk1 := add(cloneTup(lkSet), "lookalike-set-stored")
+	lk2 := add(lkID, "lookalike-id-not-stored")
+
 	// --- stored tuples and generated queries
 	for _, i := range r.Perm(len(cc.tuples))[:minInt(3, len(cc.tuples))] {
 		add(cloneTup(cc.tuples[i]), "stored")
@@ -266,6 +275,10 @@ func genC08Case(r *rand.Rand, idx int64) *c08Case {
 		&c08Batch{Kind: "limit+1", Entries: randBatch(L + 1), Depth: depth()},
 		&c08Batch{Kind: "random", Entries: randBatch(1 + r.IntN(L)), Depth: depth()},
 	)
+	// look-alikes in one batch, in both orders (a batch may not treat them as one)
+	c.Batches = append(c.Batches,
+		&c08Batch{Kind: "lookalikes", Entries: []int{lk1, lk2}, Depth: depth()},
+		&c08Batch{Kind: "lookalikes-reversed", Entries: []int{lk2, lk1, lk2}, Depth: depth()})
 	// duplicates: one entry several times between others
 	{
 		n := 2 + r.IntN(L-1)
